@@ -158,7 +158,7 @@ CHECKS["C11"] = dict(
     level_text="Persistent-mode programs with Subscribe calls overlapping Publish calls (forced by parking one side at the hook points between persisting, sending, replaying and registering) are run; at quiescence every subscription must hold exactly one acked delivery of every successfully published message of its topic. Every receipt is also compared with the published UUID, payload and metadata.",
     level_note=_GC_NOTE,
     steps=[dict(name="replay", run="^TestReplayExactlyOnce$", quick=500, thorough=160000, shards_thorough=12),
-           dict(name="longhistory", run="^TestLongHistoryOverlap$", quick=120, thorough=4000, shards_thorough=16)],
+           dict(name="longhistory", run="^TestLongHistoryOverlap$", quick=120, thorough=4000, shards_thorough=32)],
 )
 
 CHECKS["C07"] = dict(
